@@ -570,15 +570,26 @@ func (repo *Repository) CheckHeader(ctx context.Context,
 
 	branch, height := repo.branches.Find(hash)
 	if branch != nil {
-		return height, branch == repo.longest, nil
+		return height, repo.inLongest(ctx, hash, height), nil
 	}
 
 	// Lookup in larger map
 	if height, exists := repo.heights[hash]; exists {
-		return height, true, nil
+		return height, repo.inLongest(ctx, hash, height), nil
 	}
 
 	return -1, false, ErrUnknownHeader
+}
+
+// inLongest returns true if the header with the specified hash is the header at the specified
+// height in the most proof of work chain.
+func (repo *Repository) inLongest(ctx context.Context, hash bitcoin.Hash32, height int) bool {
+	header, err := repo.header(ctx, height)
+	if err != nil {
+		return false
+	}
+
+	return header.BlockHash().Equal(&hash)
 }
 
 // GetHeader returns the header with the specified hash with its block height and whether it is
@@ -595,7 +606,7 @@ func (repo *Repository) GetHeader(ctx context.Context,
 			return nil, -1, false, ErrHeaderNotAvailable
 		}
 
-		return data.Header, height, branch == repo.longest, nil
+		return data.Header, height, repo.inLongest(ctx, hash, height), nil
 	}
 
 	// Lookup in larger map
@@ -603,6 +614,11 @@ func (repo *Repository) GetHeader(ctx context.Context,
 		header, err := repo.header(ctx, height)
 		if err != nil {
 			return nil, -1, false, err
+		}
+
+		if !header.BlockHash().Equal(&hash) {
+			// The header was on a branch that has been pruned from memory.
+			return nil, -1, false, ErrHeaderNotAvailable
 		}
 
 		return header, height, true, nil
